@@ -98,7 +98,7 @@ loop:
 				continue loop
 			}
 			bytesRead += len(read.data)
-			vhook("tbl.read", t.Name, read.offset, read.source, read.data)
+			vhook("tbl.read", t, read.offset, read.source, read.data)
 			if t.insert(read.data, isFollower, h, read.offset, read.source) {
 				inserted++
 			} else {
@@ -106,7 +106,7 @@ loop:
 				t.skip(read.offset, read.source)
 				skipped++
 			}
-			vhook("tbl.verdict", t.Name, read.offset, read.source)
+			vhook("tbl.verdict", t, read.offset, read.source)
 			t.db.walBuffers.Put(read.data)
 			delta := time.Now().Sub(start)
 			if delta > 1*time.Minute {
@@ -171,7 +171,7 @@ func (t *table) insert(data []byte, isFollower bool, h hash.Hash32, offset wal.O
 
 // Skip informs the table of a new offset so that we can store it
 func (t *table) skip(offset wal.Offset, source int) {
-	vhook("rs.offer", t.Name, offset, source, -1)
+	vhook("rs.offer", t, offset, source, -1)
 	t.rowStore.insert(&insert{nil, nil, nil, offset, source})
 }
 
@@ -257,12 +257,12 @@ func (t *table) doInsert(ts time.Time, dims bytemap.ByteMap, vals bytemap.ByteMa
 	t.db.capMemorySize(true)
 	inserted := len(additionalVals)
 	if hasMainValue {
-		vhook("rs.offer", t.Name, offset, source, 0)
+		vhook("rs.offer", t, offset, source, 0)
 		t.rowStore.insert(&insert{key, encoding.NewTSParams(ts, mainVals), dims, offset, source})
 		inserted++
 	}
 	for _, subVals := range additionalVals {
-		vhook("rs.offer", t.Name, offset, source, 1)
+		vhook("rs.offer", t, offset, source, 1)
 		t.rowStore.insert(&insert{key, encoding.NewTSParams(ts, subVals), dims, offset, source})
 	}
 	t.statsMutex.Lock()
